@@ -1200,3 +1200,16 @@ package fsm
 //@   requires response != nil
 //@   ensures [C09.fill.count] response.Count == old(response.Count) + 1 && len(response.Kvs) == old(len(response.Kvs))
 //@   modifies response.Count
+
+// generated getters of the pair message (package regattapb is not loaded with every check of this
+// package): nil-safe field reads
+//@ func regattapb.(*KeyValue).GetValue
+//@   assumed
+//@   pure
+//@   params x
+//@   ensures (x == nil ==> isNilSlice(result)) && (x != nil ==> sameSlice(result, x.Value))
+//@ func regattapb.(*KeyValue).GetKey
+//@   assumed
+//@   pure
+//@   params x
+//@   ensures (x == nil ==> isNilSlice(result)) && (x != nil ==> sameSlice(result, x.Key))
